@@ -151,6 +151,9 @@ func (g *msgGen) optData() []byte {
 		if code == 10 { // cookie: 8 bytes client cookie
 			l = 8
 		}
+		if code == 15 && l < 2 { // extended DNS error: miekg insists on the 2-byte info code
+			l = 2 + g.r.Intn(10)
+		}
 		d = append(d, byte(code>>8), byte(code), byte(l>>8), byte(l))
 		d = append(d, g.bytes(l)...)
 	}
